@@ -941,10 +941,9 @@ func (c *compiler) stringsOperator(l string, r interface{}, op string) (interfac
 func (c *compiler) evalCallExpression(node *ast.CallExpression) (interface{}, error) {
 	var rv reflect.Value
 
+	// made when the callee is handed a helper context: it may run a block,
+	// its own or a stored one
 	var signal *blockSignal
-	if node.Block != nil {
-		signal = &blockSignal{}
-	}
 
 	if node.Callee != nil {
 		c, err := c.evalExpression(node.Callee)
@@ -1052,6 +1051,9 @@ func (c *compiler) evalCallExpression(node *ast.CallExpression) (interface{}, er
 		hc := func(arg reflect.Type) {
 			hhc := reflect.TypeOf((*hctx.HelperContext)(nil)).Elem()
 			if arg.ConvertibleTo(reflect.TypeOf(HelperContext{})) || arg.Implements(hhc) {
+				if signal == nil {
+					signal = &blockSignal{}
+				}
 				hargs := HelperContext{
 					Context:  c.ctx,
 					compiler: c,
